@@ -234,6 +234,9 @@ pub enum Outcome {
     NoStatus,
     /// success, with a further status information (without receipt number) ahead of the completion
     OkExtraStatus,
+    /// (reservations) a status information naming a receipt number, then the terminal aborts:
+    /// nothing is reserved
+    StatusThenAbort(u8),
 }
 
 /// The default (no-deviation) behaviour of the terminal for every command of DESIGN.md
@@ -361,6 +364,11 @@ pub fn default_script(t: &mut TermState, req: &ReqRec, outcome: &Outcome, interm
             inter(&mut s);
             match outcome {
                 Outcome::Abort(c) => s.push(r.abort(*c)),
+                Outcome::StatusThenAbort(c) => {
+                    let rc = t.free_receipt();
+                    s.push(r.status(&[("result_code", Val::Int(*c as u64)), ("amount", Val::Int(field("amount").unwrap_or(0))), ("receipt_no", Val::Int(rc as u64))], "status-of-declined-reservation"));
+                    s.push(r.abort(*c));
+                }
                 Outcome::NoStatus => s.push(r.completion()),
                 Outcome::Ok | Outcome::OkExtraStatus => {
                     let rc = t.free_receipt();
